@@ -9,7 +9,7 @@ CONSTANTS
   N4 = 0
   NParts <- NPartsDef
   Clear = TRUE
-  Split = TRUE
+  Split = FALSE
   SkelBarrierOnWorld = FALSE
   RootIsLowest = TRUE
   StatusEverywhere = TRUE
